@@ -709,12 +709,14 @@ META = {
             "regenerated from factstore.go by a go/ast scan on every run (lock_table_ok); in the model writers' critical "
             "sections overlap no other (mutual_exclusion), no two conflicting base calls overlap (no_race_in_model), and "
             "every history is linearizable w.r.t. the set machine respecting real-time order (concurrent_linearizable); "
-            "the executable checker lin_check is proved sound. Runtime part, not a proof: histories recorded from goroutines "
+            "the executable checker lin_check is proved sound and complete (lin_check_sound, lin_check_complete, "
+            "lin_check_exact: on thread-wise well-formed histories it accepts exactly the linearizable ones; its memo table "
+            "only holds positions without a successful continuation). Runtime part, not a proof: histories recorded from goroutines "
             "on the real store are judged by lin_check inside coqc; parallel parse/analyse/evaluate is compared with running "
             "alone; both are repeated under go build -race.",
     "note": "Partial for this technique: data races, the Go memory model, the scheduler and the real sync.RWMutex live in the "
             "runtime; the model's lock rules ARE the assumption about RWMutex. Linearizability of the Go code is therefore "
             "sampled (recorded schedules + race detector), only the model is proved. Trusted: Coq kernel + vm_compute, the "
-            "go/ast lock-table scanner, the recording harness (global atomic clock). lin_check completeness is not proved "
-            "(an independent brute-force oracle cross-checks every rejection).",
+            "go/ast lock-table scanner, the recording harness (global atomic clock). lin_check is proved sound and complete "
+            "(lin_check_characterisation); the independent brute-force oracle still cross-checks every rejection.",
 }
